@@ -565,10 +565,12 @@ func runC12(r *core.Run) (bool, string) {
 		"L (in one child process per implementation, every history announced before it runs; a dead child is a violation) one ReadAt per history with length 0, 2^31±1, 2^32, 2^32+1, 2^47, 2^62, 2^63-1, 2^63, 2^64-4096, 2^64-1 at offsets 0 / mid-file / last byte / EOF / EOF+1 / EOF+4096 / 2^32 / 2^62 × file sizes 0,1,100,4096; " +
 		"S (child process) the staging scheme of DirFs.AtomicCreate is observed with inotify during three calls, the next staging name is extrapolated, and a directory (staged in the root) or a caller's file (staged in the directory) gets exactly that name before AtomicCreate runs; " +
 		"P Append (header + body + trailer, twice) and AtomicCreate of 0, 1, 4 KiB, 64 KiB−1, 64 KiB, 64 KiB+1, 256 KiB, 1 MiB with reads of the whole file, of exactly the body and across both of its borders, through a descriptor opened before and one opened after the appends (the random pools draw 64 KiB−1 / 64 KiB / 64 KiB+1 / 256 KiB payloads once in 60 and 1 MiB once in 150); " +
-		"M 13–400 (thorough: 3000) entries in one directory (short, 255-byte and mixed names; Create, Link, AtomicCreate) with List after filling, after deleting every other name and after refilling — sequential, so DirFs's multi-chunk List must be exact —, 200 descriptors open at once, 1 / 12 / 64 directories")
+		"M 13–400 (thorough: 3000) entries in one directory (short, 255-byte and mixed names; Create, Link, AtomicCreate) with List after filling, after deleting every other name and after refilling — sequential, so DirFs's multi-chunk List must be exact —, 200 descriptors open at once, 1 / 12 / 64 directories; " +
+		"X (short_transfer_* keys; DirFs in a child process that a ptrace tracer of our own runs: before the call under test the child arms the tracer, which lowers the count argument of the next 1, 2, 3 or of all read/pread64 resp. write/pwrite64 calls on files below the DirFs root to the scheduled sizes at system-call entry, so the kernel performs REAL short transfers and the oracle stays the model in lock-step, byte for byte) ReadAt of whole / over-long / inner / tail / seeded ranges of files of 2 B … 1 MiB, Append of 2 B … 1 MiB to files of 0 / 10 / 4096 bytes followed by an ordinary Append and a read-back (with and without a reader opened before), AtomicCreate of 2 B … 70 000 B over an absent / shorter / longer file × schedules of 1, 2, 3 consecutive transfers cut to 1, 2, 100, 4095, 4096, 65 536, half, all-but-one bytes and every transfer cut to n bytes; a short count is not a failure: a panic or a shorter result is a divergence, and for an Append that panics the file itself says whether nothing, everything or a prefix was appended")
 	r.Assume("the DirFs root lives on the filesystem of $TMPDIR (ext4 here: case-sensitive, no unicode normalisation, NAME_MAX 255 bytes, any byte but '/' and NUL in a name); names are legal single path components (no separator, no NUL, not \".\" or \"..\", at most 255 bytes, valid UTF-8) — nothing else is reserved. Generated names never contain this process's id; the exact collision with the next staging name of DirFs.AtomicCreate is the business of the staging probe (family S), which observes the scheme instead of assuming it")
 	r.Assume("only precondition-respecting calls are issued: Open/Delete/Link-source exist, descriptors are open and of the right mode, Mkdir only of new directories; offsets and lengths of ReadAt are any uint64 (lengths from 2^31 on only in the child processes of family L, because an implementation that allocates the requested length dies with a fatal error)")
 	r.Assume("descriptor numbers are opaque: only distinctness among simultaneously open descriptors of one implementation is checked")
+	r.Assume("transfers that FAIL (ENOSPC, EFBIG behind a short count, EIO) are host limits outside the valid histories of the statement: family X cuts transfers short and injects no error; vectored transfers (readv/writev/…) cannot be cut by a count argument and are counted if they occur")
 
 	nA := r.Pick(6000, 150000)
 	nB := r.Pick(3000, 75000)
@@ -811,6 +813,9 @@ func runC12(r *core.Run) (bool, string) {
 		mark("length_family_children")
 		total.compared += runStagingProbe(r, childViolate)
 		mark("staging_probe_child")
+		// family X: real short transfers under DirFs (c12short.go)
+		total.compared += runShortTransfers(r)
+		mark("short_transfer_child")
 	}
 	r.Set("section_seconds", secs)
 	r.Eval(int(total.compared))
